@@ -196,6 +196,12 @@ class Repo:
                 except (SyntaxError, UnicodeDecodeError, OSError) as e:
                     self.parse_errors.append(f"{path}: {e}")
                     continue
+                if not os.environ.get("NQSA_NO_NORMALISE"):
+                    from . import normalise
+                    try:
+                        tree = normalise.normalise_module(name, tree)
+                    except RecursionError as e:  # pragma: no cover - defensive
+                        self.parse_errors.append(f"{path}: normalisation failed: {e}")
                 m = ModuleInfo(name=name, path=path, tree=tree, source=source)
                 m.is_pkg = fn == "__init__.py"
                 self.modules[name] = m
